@@ -18,4 +18,26 @@ def NodeWFs : List Node → Bool
   | n :: ns => NodeWF n && NodeWFs ns
 end
 
+/-- A bool-kinded scalar is spelled `bool`: for a *named* bool type the emitter produces a six-way
+comparison (`>` on bool) that the Go compiler rejects (C14 class `named-scalar`). -/
+def boolSpelled (i : Info) : Bool := i.typu != "bool" || i.typn == "bool"
+
+mutual
+/-- Conditions every tree with a *compiling* inspector meets (consequences of `uncompilable = none`,
+Gen/Select.lean): bool scalars are spelled `bool`, and `[]byte` never is a map value or a slice element
+(C14 class `bytes-element`). The compare/length theorems assume it; the driver evaluates it on every op
+whose theorem does. -/
+def EmitOK : Node → Bool
+  | .basic i => boolSpelled i
+  | .struct _ chld => EmitOKs chld
+  | .map _ k v => EmitOK k && EmitOK v && !v.isBytes
+  | .slice _ e => EmitOK e && !e.isBytes
+def EmitOKs : List Node → Bool
+  | [] => true
+  | n :: ns => EmitOK n && EmitOKs ns
+end
+
+/-- The root of an inspector is a named struct, map or slice type held by value. -/
+def RootOK (n : Node) : Bool := !n.ptr && !n.isLeaf
+
 end Inspector
